@@ -8,7 +8,7 @@ T = []
 
 FMT = "alloc::fmt::format stubbed (returns empty String): message texts are outside the claim"
 TRACING = "tracing macros are no-ops (shim crate); log arguments are not evaluated"
-HTTPH = "http::HeaderMap replaced by the Vec-backed model /verif/shims/http-model/map.rs (linear search, same public API; HeaderName/HeaderValue are the real http code)"
+HTTPH = "http::HeaderMap hash function replaced by a constant (all keys collide; probing/robin-hood/entry code is real)"
 VBYTES = "bytes::{Bytes,BytesMut} replaced by the Vec-backed model /verif/shims/vbytes (Buf/BufMut traits are the original files)"
 
 
@@ -24,9 +24,7 @@ def H(name, props, config, file, harness_file, obligation, functions, bounds, ti
     T.append(d)
 
 
-UW_MAPS = [("function http::HeaderMap::find_name", 5), ("function http::HeaderMap::len", 5), ("function http::HeaderMap::<", 5),
-           ("drop_glue::<[http::header::map::Group<", 5), ("drop_glue::<[http::HeaderValue]>", 4),
-           ("drop_glue::<[(std::option::Option<http::HeaderName>, http::HeaderValue)]>", 6)]
+UW_MAPS = [("drop_glue::<[http::header::map::Bucket<", 4), ("drop_glue::<[http::header::map::ExtraValue<", 3)]
 
 DEC = ("tonic/src/codec/decode.rs", "tonic/codec_decode.rs")
 DEC_FUNCS = ["tonic::codec::decode::StreamingInner::decode_chunk"]
@@ -53,20 +51,26 @@ for n, t in (("0", "quick"), ("1", "quick"), ("6", "quick")):
       may_be_uncovered=[] if n == "0" else ["clean end"])
 
 ENC = ("tonic/src/codec/encode.rs", "tonic/codec_encode.rs")
-for (p_, k, l_, m_, t, cap) in ((0, 1, 1, 0, "quick", 400), (0, 1, 1, 24, "quick", 400), (0, 1, 1, 1, "quick", 400), (0, 1, 1, 2, "quick", 400),
-                              (0, 1, 1, 4, "quick", 400), (0, 1, 1, 31, "quick", 400), (0, 1, 1, 32, "quick", 400), (0, 1, 1, 64, "quick", 400), (0, 1, 1, 96, "quick", 400), (3, 1, 2, 31, "thorough", 400), (0, 2, 1, 31, "thorough", 900),
-                              (6, 2, 2, 31, "thorough", 2400), (5, 2, 0, 31, "thorough", 2400)):
-    H("enc_step_p%d_k%d_l%d_m%d" % (p_, k, l_, m_), ["C01", "C06", "C03", "C02"], "core_vb", *ENC, tier=t, cap_s=cap, mem_gb=12,
-      obligation="E2/L3/W1: one poll of EncodedBytes::poll_next from an arbitrary state is equal to the reference batching model: "
-                 "chunk bytes = old buffer ++ reference frames of the messages taken; Pending only when nothing is buffered; an encode "
-                 "failure (over limit / encoder error) or source error is handed out after the frames encoded before it, with no byte of "
-                 "the failed message; exact limit comparison",
+for (p_, k, l_, m_, t, cap) in ((0, 1, 1, 63, "quick", 900), (3, 1, 2, 63, "quick", 900), (0, 2, 1, 63, "quick", 1500),
+                              (6, 2, 2, 63, "thorough", 3600), (5, 2, 0, 63, "thorough", 3600), (0, 1, 1, 31, "thorough", 3600)):
+    H("enc_step_p%d_k%d_l%d_m%d" % (p_, k, l_, m_), ["C01", "C06", "C03", "C02"], "core_vb", *ENC, tier=t, cap_s=cap, mem_gb=16,
+      obligation="E2/L3/W2: one poll of EncodedBytes::poll_next from an arbitrary state equals the reference batching model: outcome "
+                 "(Pending/End/chunk/error code), chunk length = old buffer + reference frames of the messages taken%s; Pending only "
+                 "when nothing is buffered; an encode failure (over limit / encoder error) or source error is handed out after the frames "
+                 "encoded before it with no byte of the failed message; exact limit comparison; saved error hand-off"
+                 % ("" if m_ & 32 else " and equal bytes"),
       functions=["tonic::codec::encode::EncodedBytes::poll_next", "tonic::codec::encode::encode_item",
                  "tonic::codec::encode::finish_encoding", "tonic::codec::buffer::EncodeBuf"],
       bounds="%d arbitrary pre-buffered bytes, %d symbolic source events (Pending/End/Item/Err) then Pending, messages of %d symbolic "
              "bytes, limit: any Option<usize>, yield_threshold: any usize, pending error: any" % (p_, k, l_),
-      outside=["messages longer than 2 bytes", "more than 2 source events per poll", "compressed path (see X1)"],
+      outside=["messages longer than 2 bytes", "more than 2 source events per poll", "compressed path"],
       unwindset=UW_MAPS + [("codec::encode::EncodedBytes<", k + 2)])
+for p_, l_ in ((0, 0), (0, 2), (6, 1)):
+    H("enc_item_p%d_l%d" % (p_, l_), ["C01", "C03", "C06"], "core", *ENC, cap_s=600,
+      obligation="E1/W1: encode_item appends exactly [0, BE32(len), payload] behind the bytes already buffered (earlier frames untouched); "
+                 "refused with OUT_OF_RANGE iff len > limit",
+      functions=["tonic::codec::encode::encode_item", "tonic::codec::encode::finish_encoding", "tonic::codec::buffer::EncodeBuf"],
+      bounds="%d pre-buffered symbolic bytes, payload of %d symbolic bytes, any Option<usize> limit" % (p_, l_))
 H("enc_finish_slice", ["C06", "C03", "C01"], "core", *ENC,
   obligation="L2/W1: finish_encoding writes [0, BE32(len)] and leaves the payload alone iff len <= limit, else OUT_OF_RANGE",
   functions=["tonic::codec::encode::finish_encoding"], bounds="all slices of length 5..=12 (symbolic length), any Option<usize> limit")
@@ -86,14 +90,14 @@ H("st_h2_reason_map", ["C04"], "transport", *ST, obligation="H6: code_from_h2 ov
 H("st_to_h2_error", ["C04"], "transport", *ST, obligation="H6: to_h2_error: CANCELLED => CANCEL, everything else INTERNAL_ERROR",
   functions=["tonic::Status::to_h2_error"], bounds="all 17 codes")
 for n in (1, 2):
-    H("st_fhm_status_%d" % n, ["C04", "C02"], "core_vb", *ST, cap_s=600, stubs=[HTTPH],
+    H("st_fhm_status_%d" % n, ["C04", "C02"], "core", *ST, cap_s=600, stubs=[HTTPH],
       obligation="H4: from_header_map on a real 1-entry map: code == reference parse of the grpc-status bytes, no panic",
       functions=["tonic::Status::from_header_map", "tonic::Code::from_bytes", "http::HeaderMap::{insert,get,clone,remove}"],
       bounds="grpc-status value: all %d-byte header-legal values" % n)
-H("st_fhm_absent", ["C04"], "core_vb", *ST, cap_s=300, stubs=[HTTPH], obligation="H4: no grpc-status => None",
+H("st_fhm_absent", ["C04"], "core", *ST, cap_s=300, stubs=[HTTPH], obligation="H4: no grpc-status => None",
   functions=["tonic::Status::from_header_map"], bounds="empty map")
 for n, t in ((2, "quick"), (3, "thorough")):
-    H("st_fhm_details_%d" % n, ["C04"], "core_vb", *ST, cap_s=900 if t == "quick" else 2400, tier=t, stubs=[HTTPH],
+    H("st_fhm_details_%d" % n, ["C04"], "core", *ST, cap_s=900 if t == "quick" else 2400, tier=t, stubs=[HTTPH],
       obligation="H4: from_header_map with arbitrary grpc-status-details-bin bytes: never panics; bytes outside the base64 alphabet "
                  "=> UNKNOWN error status (regression check for the fixed F1 panic)",
       functions=["tonic::Status::from_header_map", "tonic::util::base64::STANDARD (padding-indifferent)"],
@@ -101,20 +105,20 @@ for n, t in ((2, "quick"), (3, "thorough")):
 
 CMP = ("tonic/src/codec/compression.rs", "tonic/codec_compression.rs")
 UW_NAME = [("http::header::name::", 24), ("HdrName", 24), ("parse_hdr", 24)]
-H("cmp_enabled_set", ["C05"], "comp_vb", *CMP, cap_s=600,
+H("cmp_enabled_set", ["C05"], "comp", *CMP, cap_s=600,
   obligation="N3: EnabledCompressionEncodings after any <=4 enable() calls: is_enabled/is_empty match the history; the accept header "
              "value is exactly the enabled names in order + 'identity'; pop removes the last",
   functions=["EnabledCompressionEncodings::{enable,is_enabled,is_empty,pop,into_accept_encoding_header_value}"],
   bounds="all sequences of <= 4 enable() calls over {gzip,deflate,zstd}")
 for nm, val in (("gzip", "gzip"), ("deflate", "deflate"), ("identity", "identity"), ("sym4", "any 4 header-legal bytes")):
-    H("cmp_enc_hdr_" + nm, ["C05"], "comp_vb", *CMP, cap_s=900, stubs=[HTTPH],
+    H("cmp_enc_hdr_" + nm, ["C05"], "comp", *CMP, cap_s=900, stubs=[HTTPH],
       obligation="N2: from_encoding_header on a real 1-entry map: Ok(Some(e)) iff the value names e and e is enabled; identity => Ok(None); "
                  "otherwise Err(UNIMPLEMENTED)",
       functions=["CompressionEncoding::from_encoding_header", "http::HeaderMap::{insert,get}"],
       bounds="grpc-encoding = %s; enabled set: any state reachable by <= 4 enable() calls" % val,
       may_be_uncovered=["accepted encoding", "identity", "refused"])
 for nm, val in (("zstd_gzip", "'zstd, gzip'"), ("deflate_id", "'deflate,identity'"), ("sym4", "any 4 header-legal bytes"), ("absent", "header absent")):
-    H("cmp_accept_" + nm, ["C05"], "comp_vb", *CMP, cap_s=900, stubs=[HTTPH],
+    H("cmp_accept_" + nm, ["C05"], "comp", *CMP, cap_s=900, stubs=[HTTPH],
       obligation="N1: from_accept_encoding_header: the result is the first offered (comma-separated, trimmed) encoding that is enabled "
                  "for sending; None if there is none (regression check for fixed F3)",
       functions=["CompressionEncoding::from_accept_encoding_header", "split_by_comma", "http::HeaderMap::{insert,get}"],
@@ -125,12 +129,12 @@ GT = ("tonic/src/transport/service/grpc_timeout.rs", "tonic/grpc_timeout.rs")
 for nm, b, t, cap in (("1", "all 1-byte header-legal values", "quick", 600), ("2", "all 2-byte header-legal values", "quick", 900),
                       ("3", "all 3-byte header-legal values", "quick", 1200), ("tail_9", "'999999' + any 3 bytes (9 bytes)", "quick", 1200),
                       ("tail_10", "'9999999' + any 3 bytes (10 bytes)", "thorough", 2400), ("absent", "header absent", "quick", 300)):
-    H("gt_parse_" + nm, ["C09"], "transport_vb", *GT, tier=t, cap_s=cap, stubs=[HTTPH],
+    H("gt_parse_" + nm, ["C09"], "transport", *GT, tier=t, cap_s=cap, stubs=[HTTPH],
       obligation="G2: try_parse_grpc_timeout on a real 1-entry map == reference grammar (1..8 digits + unit in HMSmun => exact Duration; "
                  "anything else ignored), no panic",
       functions=["tonic::transport::service::grpc_timeout::try_parse_grpc_timeout", "http::HeaderMap::{insert,get(&str)}"],
       bounds="grpc-timeout value: " + b)
-H("gt_select_min", ["C09"], "transport_vb", *GT, cap_s=1200, stubs=[HTTPH, "tokio::time::sleep stubbed: asserts its argument == min(header, configured) and ends the path (no runtime)"],
+H("gt_select_min", ["C09"], "transport", *GT, cap_s=1200, stubs=[HTTPH, "tokio::time::sleep stubbed: asserts its argument == min(header, configured) and ends the path (no runtime)"],
   obligation="G4: GrpcTimeout::call arms the timer with min(caller grpc-timeout, configured timeout); no timer when both are absent",
   functions=["GrpcTimeout::call", "try_parse_grpc_timeout"],
   bounds="caller timeout absent / '<digit>S' / '<digit>m'; configured timeout: any Option<Duration>",
@@ -153,26 +157,24 @@ for k, t, cap in ((2, "quick", 600), (3, "quick", 900), (4, "thorough", 2400), (
 ME = ("tonic/src/metadata/encoding.rs", "tonic/metadata_encoding.rs")
 MM = ("tonic/src/metadata/map.rs", "tonic/metadata_map.rs")
 for n, t, cap in ((0, "quick", 300), (1, "quick", 900), (2, "quick", 1200), (3, "thorough", 3600)):
-    H("md_bin_roundtrip_%d" % n, ["C08", "C04"], "core_vb", *ME, tier=t, cap_s=cap,
+    H("md_bin_roundtrip_%d" % n, ["C08", "C04"], "core", *ME, tier=t, cap_s=cap,
       obligation="M3/H3: Binary::from_bytes writes unpadded standard base64 (== arithmetic reference); decode of that and of the '='-padded "
                  "spelling both give back the original bytes",
       functions=["metadata::encoding::Binary::{from_bytes,decode}", "tonic::util::base64::{STANDARD, STANDARD_NO_PAD}"],
       bounds="all %d-byte values" % n, outside=["values longer than 3 bytes (one base64 quantum)"])
-H("md_key_classification", ["C08"], "core_vb", *ME, cap_s=600,
+H("md_key_classification", ["C08"], "core", *ME, cap_s=600,
   obligation="M4: Binary::is_valid_key(k) <=> k ends with '-bin'; Ascii::is_valid_key == !Binary",
   functions=["metadata::encoding::{Binary,Ascii}::is_valid_key"], bounds="all ASCII keys of length 0..=7 (symbolic length)")
 for nm in ("te", "user_agent", "content_type", "grpc_status", "grpc_message", "grpc_message_type"):
-    H("md_sanitize_" + nm, ["C08", "C04"], "core_vb", *MM, cap_s=900, stubs=[HTTPH],
+    H("md_sanitize_" + nm, ["C08", "C04"], "core", *MM, cap_s=900, stubs=[HTTPH],
       obligation="M1: into_sanitized_headers on a real 2-entry map {reserved name, user entry} in either order: reserved name absent, user "
                  "entry intact (reserved names taken from the property statement, not from tonic's array)",
       functions=["MetadataMap::into_sanitized_headers", "MetadataMap::from_headers", "http::HeaderMap::{insert,remove,get}"],
       bounds="reserved name '%s'; user value: all 2-byte visible-ASCII values; both insertion orders" % nm.replace("_", "-"))
-H("md_typed_access", ["C08"], "core_vb", *MM, cap_s=900, stubs=[HTTPH],
+H("md_typed_access", ["C08"], "core", *MM, cap_s=900, stubs=[HTTPH],
   obligation="M4: a one-entry map with key 'x-a' / 'x-a-bin': exactly the accessor (get / get_bin / iter variant) of its kind sees the entry",
   functions=["MetadataMap::{get,get_bin,iter}"], bounds="2 keys (ASCII, binary)")
 
-for nm in ("probe_fhm_concrete", "probe_clone_remove3"):
-    H(nm, ["PROBE"], "core_vb", *ST, cap_s=900, unwind=6, unwindset=UW_MAPS + [("function memcmp", 24)], obligation="measurement probe", functions=[], bounds="")
 
 WEB = ("tonic-web/src/call.rs", "web/call.rs")
 H("web_find_trailers_12", ["C17"], "web_vb", *WEB, cap_s=900,
